@@ -219,3 +219,20 @@ def c01(tier, seed):
         "cipher on symbolic data of each listed length yields exactly data ^ keystream (block i = block function at "
         "counter i with the alias's rounds, little-endian), which also fixes the round count each alias passes down and "
         "that nothing but XOR touches the data.", trusted_base=["spec/chacha.py", "engine/models.py", "engine/bv.py"])
+
+
+from . import check_lattice
+
+
+@check("C20")
+def c20(tier, seed):
+    r = Report("C20", tier, "other", seed)
+    n = check_lattice.run(r, tier)
+    r.floor("lattice points checked", n, 32 if tier == "quick" else 70)
+    r.assumptions = ["'selects an implementation and never changes a result' is discharged by C03 (std / no-std / no_simd) and C09/C10 (no_unroll), which compare every alternative with one specification"]
+    return r.finish(
+        "R20.1: `cargo check --offline -p <crate> --no-default-features --features <subset>` on the stable toolchain for "
+        "every subset (thorough) or for the empty set, every single feature and the full set (quick) of every crate's "
+        "declared features, implicit optional-dependency features included; the exit status of the type checker is the "
+        "verdict for that point. Sources are /repo's working tree; build output goes to a temporary directory.",
+        trusted_base=["rustc/cargo stable"], coverage_extra={"exhaustive": tier == "thorough"})
